@@ -1028,6 +1028,174 @@ def part_crash(chk, tier, cfg0):
     return dict(points=fired_points, planned=total_points)
 
 
+REPLICA_CFG = """colvarsTrajFrequency 0
+colvar {
+  name d
+  width %(width)s
+  lowerBoundary 0.0
+  upperBoundary 4.0
+  distance {
+    group1 { atomNumbers 1 2 }
+    group2 { atomNumbers 3 4 }
+  }
+}
+metadynamics {
+  name mtd
+  colvars d
+  hillWeight 0.1
+  hillWidth 3.0
+  newHillFrequency 1
+  multipleReplicas on
+  replicaID r0
+  replicasRegistry registry.txt
+  replicaUpdateFrequency 2
+}
+"""
+
+
+def part_crash_replica(chk, tier, cfg0):
+    """The per-replica state file of multiple-walker metadynamics (<prefix>.colvars.<bias>.<replica>.state) is what the other
+    walkers read; it is replaced through a temporary file.  A walker killed at any file-system call of a replacement must
+    leave, under the published name, a file that is byte-identical to one of the complete versions of the uninjected run."""
+    chk.use_flavour("plain")
+    wd = os.path.join(chk.work, "crash_replica")
+    os.makedirs(wd, exist_ok=True)
+    exe = vbuild.tool("plain", "esim")
+    strace = shutil.which("strace")
+    if not strace:
+        chk.inconc("strace not available")
+        return dict(points=0, planned=0)
+    rfreq = 2
+    nsteps = 7 if tier == "quick" else 13
+    cfg = dict(cfg0, config=REPLICA_CFG % {"width": "0.02" if tier == "quick" else "0.01"})
+    xs = traj_x(chk.rng, nsteps)
+    fname = "out.colvars.mtd.r0.state"
+    names = (fname, fname + ".tmp")
+
+    def scenario(upto=None):
+        ls = scn_head(cfg) + ["prefix out", "rfreq %d" % rfreq, "init"]
+        for i, x in enumerate(xs):
+            if upto is not None and i >= upto:
+                break
+            ls += ["posa 3 %s 0.25 0" % common.fnum(x), "step"]
+        ls.append("abort_here" if upto is not None else "endrun")
+        return "\n".join(ls) + "\n"
+
+    def fresh(d):
+        shutil.rmtree(d, ignore_errors=True)
+        os.makedirs(d)
+        return d
+
+    fd = fresh(os.path.join(wd, "replica"))
+    scn = os.path.join(fd, "run.scn")
+    with open(scn, "w") as f:
+        f.write(scenario())
+    bd = fresh(os.path.join(fd, "base"))
+    tr = os.path.join(bd, "trace.txt")
+    r = common.run_proc([strace, "-f", "-e", "trace=" + TRACE_SET, "-o", tr, exe, scn], timeout=120, cwd=bd)
+    calls, why = parse_trace(tr)
+    if r["rc"] != 0 or calls is None or not os.path.exists(os.path.join(bd, fname)):
+        chk.inconc("traced baseline of the replica state file failed: rc=%s %s %s" % (r["rc"], why, r["err"][-200:]))
+        return dict(points=0, planned=0)
+    # calls touching the published file or its temporary, with ordinals among same-name calls
+    fdpath, counts, scalls = {}, {}, []
+    for c in calls:
+        if c["name"] == "+++":
+            continue
+        counts[c["name"]] = counts.get(c["name"], 0) + 1
+        c["ordinal"] = counts[c["name"]]
+        touch = False
+        if c["name"] == "openat":
+            m = re.search(r'"([^"]*)"', c["args"])
+            pth = m.group(1) if m else ""
+            if c["ret"].lstrip("-").isdigit() and int(c["ret"]) >= 0:
+                fdpath[int(c["ret"])] = pth
+            touch = os.path.basename(pth) in names and "O_RDONLY" not in c["args"]
+        elif c["name"].startswith("rename") or c["name"].startswith("unlink"):
+            touch = any(os.path.basename(x) in names for x in re.findall(r'"([^"]*)"', c["args"]))
+        elif c["name"] in ("write", "writev", "close"):
+            m = re.match(r"(\d+)", c["args"])
+            fdn = int(m.group(1)) if m else -1
+            touch = os.path.basename(fdpath.get(fdn, "")) in names
+            if c["name"] == "close":
+                fdpath.pop(fdn, None)
+        if touch:
+            scalls.append(c)
+    # replacements: from the opening of the temporary (or of the file itself) to the rename / close that ends it
+    groups, cur = [], None
+    for c in scalls:
+        if c["name"] == "openat":
+            cur = [c]
+            groups.append(cur)
+        elif cur is not None:
+            cur.append(c)
+    if len(groups) < 2:
+        chk.inconc("replica state file: %d replacements traced (%s)" % (len(groups), [short_call(c) for c in scalls][:10]))
+        return dict(points=0, planned=0)
+    # complete versions of the uninjected run: the file as found when the run is stopped right after each state-writing step
+    refs = {}
+
+    def ref_run(k):
+        rd = fresh(os.path.join(fd, "ref%d" % k))
+        rs = os.path.join(rd, "ref.scn")
+        with open(rs, "w") as f:
+            f.write(scenario(upto=k))
+        common.run_proc([exe, rs], timeout=120, cwd=rd)
+        pth = os.path.join(rd, fname)
+        return k, (open(pth, "rb").read() if os.path.exists(pth) else None)
+
+    for k, b in common.pmap(ref_run, list(range(1, nsteps + 1))):
+        if b:
+            refs.setdefault(hashlib.sha256(b).hexdigest(), "as after %d steps" % k)
+    refs.setdefault(hashlib.sha256(open(os.path.join(bd, fname), "rb").read()).hexdigest(), "final")
+    points = []
+    for gi, g in enumerate(groups):
+        if gi == 0:
+            continue
+        for ci, c in enumerate(g):
+            points.append(dict(k=gi + 1, idx=ci, call=c, label="kill@%s#%d" % (c["name"], ci)))
+
+    def run_point(pt):
+        pd = fresh(os.path.join(fd, "p%d_%d" % (pt["k"], pt["idx"])))
+        c = pt["call"]
+        tr2 = os.path.join(pd, "trace.txt")
+        rr = common.run_proc([strace, "-f", "-e", "trace=" + TRACE_SET, "-e", "inject=%s:signal=KILL:when=%d" % (c["name"], c["ordinal"]),
+                              "-o", tr2, exe, scn], timeout=120, cwd=pd)
+        cl, _ = parse_trace(tr2)
+        if not (cl and len(cl) >= 2 and cl[-1]["name"] == "+++" and "killed by SIGKILL" in cl[-1]["line"] and cl[-2]["name"] == c["name"]):
+            return pt, dict(fired=False, why="process was not killed at the planned call (rc=%s)" % rr["rc"])
+        pth = os.path.join(pd, fname)
+        if not os.path.exists(pth):
+            return pt, dict(fired=True, ok=False, desc="%s missing" % fname, dir=pd)
+        b = open(pth, "rb").read()
+        lab = refs.get(hashlib.sha256(b).hexdigest())
+        return pt, dict(fired=True, ok=bool(lab), desc="%s: %d bytes, %s" % (fname, len(b), lab or "not a complete version of the uninjected run "
+                                                                         "(tail: %r)" % b[-40:]), dir=pd)
+
+    fired = 0
+    bad = []
+    for pt, res in common.pmap(run_point, points):
+        if not res["fired"]:
+            chk.inconc("replica state file, %s of replacement %d did not fire: %s" % (pt["label"], pt["k"], res["why"]))
+            continue
+        fired += 1
+        chk.count()
+        chk.nontrivial(("crash", "replica_state", pt["k"], pt["label"]))
+        if not res["ok"]:
+            bad.append((pt, res))
+    if bad:
+        pt, res = bad[0]
+        chk.violation("crash:replica_state:before_" + pt["call"]["name"],
+                      "a walker killed while replacing its replica state file leaves an incomplete file under the published name: " +
+                      " || ".join("replacement %d, death %s: %s" % (p_["k"], p_["label"], r_["desc"]) for p_, r_ in bad[:4]),
+                      files=[scn, os.path.join(res["dir"], fname)],
+                      payload={"call_sequence": [[short_call(c) for c in g] for g in groups[:3]]})
+    chk.extra["crash_consistency_replica_state"] = {"file": fname, "replacements_traced": len(groups), "crash_points_planned": len(points),
+                                                    "crash_points_fired": fired, "complete_versions": len(refs),
+                                                    "call_sequence_of_one_replacement": [short_call(c) for c in groups[1]]}
+    return dict(points=fired, planned=len(points))
+
+
 # ---------------------------------------------------------------------------------------------
 # part d: fuzzing
 # ---------------------------------------------------------------------------------------------
@@ -1237,6 +1405,7 @@ def run(tier, replay):
     states = gen_states(chk, cfgs)
     b = part_damaged(chk, tier, cfgs, states)
     c = part_crash(chk, tier, cfgs[0])
+    cr = part_crash_replica(chk, tier, cfgs[0])
     d = part_fuzz(chk, tier, cfgs, states)
     emit_damaged(chk, len(cfgs))
 
